@@ -89,6 +89,12 @@ ASSUMPTIONS = [
     "without configuration / service / finished descriptor wait is a violation; listen() may fail before the "
     "configuration is available iff it fails with the injected local-bind error (isinstance CannotListenError), and a "
     "listenTCP made although the configuration later fails is fine as long as nothing is open once listen() has failed",
+    "the fake listening port's stopListening() completes either at once or (case field async_stop) only when the harness "
+    "runs the next 'reactor turn' after each step, as a real tcp.Port does; 'leaves no local listener open' is judged at "
+    "the moment listen()'s failure is delivered (an errback added before any other) and again at the end",
+    "config 'bootstrapping' (constructor route): a TorConfig instance whose post_bootstrap is still pending when listen() "
+    "is called, then completed or failed (GETINFO config/names answered 552); it is judged like a config Deferred that "
+    "fires late - not resolved and no creating command before, same latitude for an early bind failure",
     "a version-3 request with an RSA1024 key is judged as a creation failure (listen fails, nothing left open), not as "
     "an 'invalid option combination': no documentation lists it among the refused combinations",
     "on an already connected Tor, loading its configuration (the GETINFO/GETCONF/SETEVENTS CONF_CHANGED that "
@@ -147,6 +153,9 @@ def normalize(case):
     if route == "tor":
         c["local_port"] = None
         c["ephemeral_arg"] = None
+    c.setdefault("async_stop", False)
+    if c["config"] == "bootstrapping" and (route != "ctor" or c["fault"] == "config-type"):
+        c["config"] = "late"
     if route != "ctor":
         c["auth_arg"] = "auth"
         if c["config"] == "instance":
@@ -298,6 +307,7 @@ class _World(object):
         self.expected_uri = None
         self._config_value = None
         self.bind_errors = refuse_loopback_bind(self.reactor) if c["fault"] == "bind" else None
+        self.reactor.async_stop = bool(c.get("async_stop"))
 
     def mktmp(self):
         if self.tmp is None:
@@ -354,6 +364,14 @@ class _World(object):
     def ctor_config(self):
         c = self.c
         from twisted.internet import defer
+        if c["config"] == "bootstrapping":
+            # a TorConfig *instance* that is still bootstrapping when listen() is called: its queries stay unanswered
+            # until deliver_config(); for fault "config" Tor then refuses GETINFO config/names (552)
+            import txtorcon
+            if c["fault"] == "config":
+                del self.tor.server.info["config/names"]
+            self.tor.pipe.auto = False
+            return txtorcon.TorConfig(self.tor.proto)
         if c["fault"] == "config-type":
             obj = {"not": "a TorConfig"}
             if c["config"] == "instance":
@@ -486,7 +504,10 @@ class _World(object):
     def deliver_config(self):
         c = self.c
         route = c["route"]
-        if route == "ctor":
+        if route == "ctor" and c["config"] == "bootstrapping":
+            self.tor.pipe.auto = True
+            self.tor.pipe.pump()
+        elif route == "ctor":
             if self.config_d is not None and not self.config_d.called:
                 if c["fault"] == "config":
                     self.config_d.errback(self.config_exc)
@@ -603,9 +624,17 @@ def _run_listen(res, c, fault, steps, w):
     # ---- B: config before / after listen()
     if c["config"] in ("instance", "fired"):
         w.deliver_config()
-    lw = Watch(ep.listen(_Proto()), passthrough=True)
+    open_at_failure = []
+
+    def snapshot(f):
+        open_at_failure.append(_open(r))
+        return f
+    ld = ep.listen(_Proto())
+    ld.addErrback(snapshot)
+    lw = Watch(ld, passthrough=True)
     tor.pipe.pump()
-    if c["config"] == "late":
+    r.finish_stops()
+    if c["config"] in ("late", "bootstrapping"):
         # The statement orders only success ("resolves - only after the service exists ..."): a *resolved* listen()
         # without a configuration is a violation.  Whether the local bind happens before or after the configuration
         # is known is left open, so a listen() that has already *failed* is fine iff it carries the injected local-bind
@@ -629,6 +658,7 @@ def _run_listen(res, c, fault, steps, w):
             return
         w.deliver_config()
         tor.pipe.pump()
+        r.finish_stops()
     held = tor.add_onion_lines if not fs else tor.setconf_lines
     other = tor.setconf_lines if not fs else tor.add_onion_lines
 
@@ -644,6 +674,12 @@ def _run_listen(res, c, fault, steps, w):
             res.bad("listen-fired-more-than-once", "listen() fired %d times" % lw.fired)
 
     def no_leak(what):
+        r.finish_stops()
+        if open_at_failure and open_at_failure[0]:
+            res.bad("listener-open-when-failure-delivered", "%s: %s: listen()'s failure %r was delivered while the local "
+                    "listener(s) %r were still open (stopListening() had not finished)" % (
+                        _describe(c, w), what, lw.outcome()[:2], open_at_failure[0]))
+            return
         if r.listeners:
             res.bad("listener-leak-on-failure", "%s: %s, listen() -> %r, but the local listener(s) %r are still open" % (
                 _describe(c, w), what, lw.outcome()[:2], _open(r)))
@@ -663,7 +699,9 @@ def _run_listen(res, c, fault, steps, w):
             return
         exc = lw.failure.value
         if fault == "config":
-            if c["route"] == "ctor":
+            if c["route"] == "ctor" and c["config"] == "bootstrapping":
+                okerr = _error_matches_code(exc, 552, "config/names")
+            elif c["route"] == "ctor":
                 okerr = exc is w.config_exc
             elif c["route"] == "tor":
                 okerr = _error_matches_code(exc, 552, "config/names")
@@ -783,6 +821,7 @@ def _run_listen(res, c, fault, steps, w):
                                       reason=None if reason == "NONE" else reason)
             ref.feed(is_own, act, hsd)
             tor.event(ev)
+        r.finish_stops()
         if fault_struck:
             want = "failure"
         else:
@@ -847,6 +886,7 @@ def _run_listen(res, c, fault, steps, w):
     # stop -> nothing open; start again -> listening again (loopback only); stop -> nothing open
     def stop(which):
         d = port.stopListening()
+        r.finish_stops()
         if r.listeners:
             res.bad("stoplistening-leaves-listener-open" if which == "first" else "stoplistening-after-restart-leaves-listener-open",
                     "%s: after the %s stopListening() still open: %r" % (_describe(c, w), which, _open(r)))
@@ -1165,7 +1205,9 @@ def cases(draw):
     if not fs and version == 3 and key in ("typed", "file"):
         faults.append("key-mismatch")
     fault = draw(st.sampled_from(faults))
-    config = draw(st.sampled_from(["instance", "fired", "late"] if route == "ctor" else ["fired", "late"]))
+    config = draw(st.sampled_from(["instance", "fired", "late", "bootstrapping"] if route == "ctor" else ["fired", "late"]))
+    if config == "bootstrapping" and fault == "config-type":
+        config = "late"
     nown = draw(st.integers(1, 3))
     nfor = draw(st.integers(0, 2))
     all_failed = draw(st.integers(0, 3)) == 0
@@ -1178,6 +1220,7 @@ def cases(draw):
             "version": version, "key": key, "single_hop": single_hop,
             "public_port": public_port, "local_port": local_port, "first_port": first_port,
             "config": config, "fault": fault, "code": draw(st.sampled_from(REJECT_CODES)),
+            "async_stop": draw(st.booleans()),
             "n": draw(st.integers(0, 5)), "trace": trace}
 
 
@@ -1255,11 +1298,13 @@ def fault_matrix():
                 c = dict(conf)
                 if fault == "config" and timing == "instance":
                     timing = "fired"
+                if conf["route"] == "ctor" and fault != "config-type" and (k // 3) % 4 == 0:
+                    timing = "bootstrapping"      # a TorConfig instance that is still bootstrapping at listen()
                 # (indices mixed with k // m so that a strided sample of the matrix still sees every value)
                 c.update({"public_port": [80, 443, 8080, 65535, 1][k % 5], "local_port": [None, None, 1234][(k + k // 3) % 3],
                           "first_port": [40001, 1024, 65535, 8080][k % 4], "config": timing, "fault": fault,
                           "code": REJECT_CODES[(k + k // 6) % len(REJECT_CODES)], "n": (k + k // 6) % 6,
-                          "trace": _with_reasons(trace, k + k // 5)})
+                          "async_stop": (k // 3) % 2 == 0, "trace": _with_reasons(trace, k + k // 5)})
                 yield c
 
 
@@ -1333,7 +1378,7 @@ def history_cases():
                             yield {"route": route, "fs": fs, "dir": dirk, "ephemeral_arg": False if dirk == "implicit" else None,
                                    "auth": auth, "clients": 1 + k % 2, "auth_arg": "auth", "version": version, "key": key,
                                    "single_hop": None, "public_port": [80, 443, 9001][k % 3], "local_port": None,
-                                   "first_port": 40001 + k % 7, "config": config, "fault": fault,
+                                   "first_port": 40001 + k % 7, "config": config, "fault": fault, "async_stop": k % 3 != 0,
                                    "code": REJECT_CODES[k % len(REJECT_CODES)], "n": k % 6,
                                    "trace": _with_reasons(tr[:pos] + [["R"]] + tr[pos:], k + k // 5)}
 
@@ -1974,6 +2019,11 @@ MUTANTS = [
      "    try:\n        yield _issue_add_onion(config, onion, version, auth)\n    except Exception:\n",
      "    try:\n        yield _issue_add_onion(config, onion, version, auth)\n    except Exception as e:\n"
      "        if '550' in str(e):\n            onion._hostname = 'collision.onion'\n            return\n"),
+    ("cleanup-does-not-wait-for-stoplistening", _EP,
+     "            yield defer.maybeDeferred(listening_port.stopListening)\n",
+     "            listening_port.stopListening()\n"),
+    ("bootstrapping-config-used-at-once", _EP,
+     "        # just to be sure:\n        yield self._config.post_bootstrap\n", "        # just to be sure:\n"),
     ("single-hop-filesystem-accepted", _EP,
      "        if single_hop and not ephemeral:\n", "        if False:\n"),
     ("private-key-filesystem-accepted", _EP,
